@@ -94,6 +94,36 @@ Proof.
   intros a b H x. rewrite (set_eqb_except_sound _ _ _ _ H x). simpl. now rewrite andb_true_r, orb_false_r.
 Qed.
 
+(* agreement outside a list of exceptions: robust against the repair of a deviation (the lemma keeps holding when an
+   exception disappears), whereas set_eqb_except states that the exceptions are present exactly *)
+Definition set_eqb_outside (a b exc : list A) : bool := forallb (fun x => mem x exc) (diff a b ++ diff b a).
+
+Theorem set_eqb_outside_sound : forall a b exc, set_eqb_outside a b exc = true ->
+  forall x, mem x exc = false -> mem x a = mem x b.
+Proof.
+  intros a b exc H x Hx. unfold set_eqb_outside in H. rewrite forallb_forall in H.
+  destruct (mem x a) eqn:Ea, (mem x b) eqn:Eb; try reflexivity; exfalso.
+  - assert (mem x (diff a b) = true) as D by (rewrite mem_diff, Ea, Eb; reflexivity).
+    apply mem_In in D. rewrite (H x) in Hx; [discriminate | apply in_or_app; now left].
+  - assert (mem x (diff b a) = true) as D by (rewrite mem_diff, Ea, Eb; reflexivity).
+    apply mem_In in D. rewrite (H x) in Hx; [discriminate | apply in_or_app; now right].
+Qed.
+
+Lemma existsb_outside_ext : forall (f : A -> bool) a b exc,
+  (forall x, mem x exc = false -> mem x a = mem x b) -> (forall x, mem x exc = true -> f x = false) ->
+  existsb f a = existsb f b.
+Proof.
+  intros f a b exc H F.
+  assert (forall u v, (forall x, mem x exc = false -> mem x u = mem x v) -> existsb f u = true -> existsb f v = true) as K.
+  { intros u v Huv E. apply existsb_exists in E. destruct E as [x [Hx Fx]]. apply existsb_exists. exists x. split; [|exact Fx].
+    apply mem_In. destruct (mem x exc) eqn:Ex; [rewrite (F x Ex) in Fx; discriminate|].
+    rewrite <- (Huv x Ex). now apply mem_In. }
+  destruct (existsb f a) eqn:Ea.
+  - symmetry. now apply (K a b).
+  - destruct (existsb f b) eqn:Eb; [|reflexivity].
+    assert (existsb f a = true) as C by (apply (K b a); [intros x Hx; symmetry; now apply H | exact Eb]). congruence.
+Qed.
+
 Fixpoint nodupb (l : list A) : bool :=
   match l with [] => true | x :: t => negb (mem x t) && nodupb t end.
 
